@@ -280,4 +280,76 @@ example : (Spec.answer sampleZone (N ["a", "sub", "ex", "com"]) 1 1 1 [0, 0]).ad
 
 end SpecSanity
 
+/-! ## 4. refinement on the v1 key layout (CDB and RocksDB v1)
+
+Vocabulary (all in `Proofs/ServeRefine.lean`, all decidable where they are predicates on data):
+
+* `NameOK ls` — labels non-empty, shorter than 64 bytes, lower-case; wire length ≤ 255.
+* `rowOfRec r` — the row of a record: `putrrhead` (untagged iff `r.loc = [0,0]`), weight for A/AAAA, rdata.
+* `RepresentsAt s recs loc` — for every `NameOK` name, `s.get (loc ++ pack name)` is the list of
+  rows of the records with that owner and location tag, in order; `Represents` = for every 2-byte tag.
+  The theorems need it only for the untagged key space and the client's own location.
+* `WellFormed recs` — (1) field ranges (`RecOK`: type < 2^16, ttl < 2^32, 2-byte location, weight < 2^32
+  on A/AAAA); (2) `SoaHasNs`: the owner of a non-wildcard SOA owns a non-wildcard NS visible in every
+  view that sees the SOA; (3) `NsParse`: the rdata of a non-wildcard NS record is exactly one wire name.
+* `viewSort l recs` — the records tagged `l` first, then the others (a stable partition). The v1
+  readers visit location-tagged rows before untagged ones, so sections come out in this order; it
+  is a permutation of `recs`, and nothing else about the answer depends on it.
+* `ofSpec`, `ofSpecRR`, `ofSpecGroup` — a `Spec.Answer` as a `Serve.Response` (owners packed). -/
+
+section Refinement
+open Spec DnsVerif.Loc
+
+/-- (a) The zone-cut walk returns the spec's cut: the closest ancestor-or-self owning a visible
+non-wildcard NS (`ns = true`, `auth` = it also owns a visible SOA), and `⟨false, false, [0]⟩` — the
+root, nothing found — when no ancestor does. -/
+theorem cut_refines (b : Backend) (s : Store) (recs : List Rec) (l : Bytes)
+    (h0 : RepresentsAt s recs [0, 0]) (hl : RepresentsAt s recs l) (hwf : WellFormed recs)
+    (q : List Bytes) (hq : NameOK q) :
+    isAuthoritativeV1 ⟨b, s, l⟩ ((pack q).length + 1) (pack q) false false =
+      .ok (match cutOf recs l q with
+           | some c => ⟨true, hasT recs l c 6, pack c⟩
+           | none => ⟨false, false, [0]⟩) :=
+  cut_walk b s recs l h0 hl hwf.1 hwf.2.1 q hq _ (Nat.lt_succ_of_lt (length_lt_pack q))
+
+/-- (b) The answer walk returns `recordsFor`: `recordFound` iff it is non-empty, and the matching
+records (type = qtype, or CNAME, or qtype = ANY) split into plain records, A and AAAA candidates,
+each in `viewSort` order (`ansOf` spells this out). -/
+theorem findAnswer_refines (b : Backend) (s : Store) (recs : List Rec) (l : Bytes)
+    (h0 : RepresentsAt s recs [0, 0]) (hl : RepresentsAt s recs l) (hwf : WellFormed recs)
+    (q cut : List Bytes) (hq : NameOK q) (hcut : NameOK cut) (qnameOut : Bytes) (qtype : Nat) :
+    findAnswerV1 ⟨b, s, l⟩ (pack cut) qnameOut qtype ((pack q).length + 1) (pack q) false {} =
+      ansOf qnameOut qtype (recordsFor (viewSort l recs) l q cut) :=
+  findAnswer_recordsFor b s recs l h0 hl hwf.1 cut hcut.1 qnameOut qtype q hq _
+    (Nat.lt_succ_of_lt (length_lt_pack q))
+
+/-- what `ansOf` holds, field by field -/
+theorem ansOf_fields (qn : Bytes) (qt : Nat) (rs : List Rec) :
+    (ansOf qn qt rs).recordFound = !rs.isEmpty ∧
+    (ansOf qn qt rs).rrs =
+      ((rs.filter fun r => r.type = 5 ∨ r.type = qt ∨ qt = 255).filter fun r => r.type ≠ 1 ∧ r.type ≠ 28).map
+        (fun r => ⟨qn, r.type, 1, r.ttl, r.rdata⟩) ∧
+    (ansOf qn qt rs).a4 =
+      ((rs.filter fun r => r.type = 5 ∨ r.type = qt ∨ qt = 255).filter fun r => r.type = 1).map
+        (fun r => ⟨r.ttl, r.weight, r.rdata⟩) ∧
+    (ansOf qn qt rs).a6 =
+      ((rs.filter fun r => r.type = 5 ∨ r.type = qt ∨ qt = 255).filter fun r => r.type = 28).map
+        (fun r => ⟨r.ttl, r.weight, r.rdata⟩) :=
+  ⟨rfl, rfl, rfl, rfl⟩
+
+/-- (c), every section but the additional one: for a lower-case query `q`, `serve` replies, and
+rcode, AA, answer records, answer address groups and the authority section are exactly those of
+`Spec.answer` (DS queries included). The additional section is the model's `additionalFor` run over
+those spec sections (`respOf`); `serve_v1_refines_spec` below resolves it. -/
+theorem serve_v1_refines_spec_core (b : Backend) (hb : b ≠ .rdbV2) (s : Store) (recs : List Rec) (l : Bytes)
+    (h0 : RepresentsAt s recs [0, 0]) (hl : RepresentsAt s recs l) (hwf : WellFormed recs)
+    (q : List Bytes) (hq : NameOK q) (qtype qclass maxAns : Nat)
+    (maps : List MapDecl) (subnets : List SubnetDecl) :
+    ∃ extra, serve ⟨b, s, l⟩ ⟨pack q, pack q, qtype, qclass, maxAns⟩ =
+      .reply { ofSpec (Spec.answer ⟨viewSort l recs, maps, subnets⟩ q qtype qclass maxAns l) with
+               extra := extra } :=
+  ⟨_, serve_v1_core b hb s recs l h0 hl hwf q hq qtype qclass maxAns maps subnets⟩
+
+end Refinement
+
 end DnsVerif.Props.C01
